@@ -233,19 +233,17 @@ func OffendingTokens(p *load.Prog, r *oblig.Report, rule string, methods []strin
 			}
 		}
 		n := 0
-		for _, b := range fn.Blocks {
-			for _, in := range b.Instrs {
-				call, ok := in.(ssa.CallInstruction)
-				if !ok {
-					continue
-				}
-				cc := call.Common()
+		{
+			for _, ci := range e5path.CallsWithHelpers(fn, 2) {
+				ci := ci
+				cc := ci.Call.Common()
+				in := ci.Via.(ssa.Instruction)
 				if !cc.IsInvoke() || cc.Method.Name() != "NotifyErrorListeners" || len(cc.Args) != 3 {
 					continue
 				}
 				n++
 				construct := fmt.Sprintf("offending-token:%s", m)
-				tokPath := e5path.AccessPath(cc.Args[1])
+				tokPath := ci.Path(cc.Args[1])
 				base := strings.TrimSuffix(tokPath, ".GetStart()")
 				nilExc := false
 				if c, ok := cc.Args[2].(*ssa.Const); ok && c.IsNil() {
@@ -256,7 +254,7 @@ func OffendingTokens(p *load.Prog, r *oblig.Report, rule string, methods []strin
 					r.Bad(rule, construct, p.Pos(in.Pos()), "the offending token is "+tokPath+", not the start token of the name")
 				case base == "ctx":
 					r.Bad(rule, construct, p.Pos(in.Pos()), "the error points at ctx.GetStart(), the start of the whole declaration, not at the offending name")
-				case !texts[base] && !nameRules[ruleOfContext(cc.Args[1])]:
+				case !texts[base] && !nameRules[ruleOfContext(cc.Args[1])] && !nameRules[ruleOfContextPath(ci, cc.Args[1])]:
 					r.Bad(rule, construct, p.Pos(in.Pos()), "the error points at "+base+", which is neither a name rule of the grammar nor the text this callback reads")
 				case !nilExc:
 					r.Bad(rule, construct, p.Pos(in.Pos()), "a recognition exception is passed along: the position would be taken from it instead of the token")
@@ -438,6 +436,48 @@ func ruleOfContext(tok ssa.Value) string {
 	t := call.Common().Value.Type().String()
 	i := strings.LastIndex(t, ".I")
 	if i < 0 || !strings.HasSuffix(t, "Context") {
+		return ""
+	}
+	name := strings.TrimSuffix(t[i+2:], "Context")
+	if name == "" {
+		return ""
+	}
+	return strings.ToLower(name[:1]) + name[1:]
+}
+
+// ruleOfContextPath: like ruleOfContext for a token taken inside a helper from one of its parameters: the
+// grammar rule of the context the caller passes for that parameter.
+func ruleOfContextPath(ci e5path.CallInst, tok ssa.Value) string {
+	call, ok := tok.(*ssa.Call)
+	if !ok || !call.Common().IsInvoke() {
+		return ""
+	}
+	recv := ci.Arg(call.Common().Value)
+	for {
+		switch x := recv.(type) {
+		case *ssa.MakeInterface:
+			recv = x.X
+			continue
+		case *ssa.ChangeInterface:
+			recv = x.X
+			continue
+		}
+		break
+	}
+	t := recv.Type().String()
+	i := strings.LastIndex(t, ".I")
+	if i < 0 {
+		i = strings.LastIndex(t, ".")
+		if i < 0 || !strings.HasSuffix(t, "Context") {
+			return ""
+		}
+		name := strings.TrimSuffix(t[i+1:], "Context")
+		if name == "" {
+			return ""
+		}
+		return strings.ToLower(name[:1]) + name[1:]
+	}
+	if !strings.HasSuffix(t, "Context") {
 		return ""
 	}
 	name := strings.TrimSuffix(t[i+2:], "Context")
